@@ -12,13 +12,18 @@ MODULES = ['Netpoll.Props.C12']
 MANIFEST = dict(
     text='Lean 4 theorems over the sequential post-close model of every Connection/Reader/Writer method (all buffer states, sizes and arguments): Writer calls and short reads return the close error '
          '(ErrConnClosed locally, an error matching ErrEOF and ErrConnClosed after a peer close), buffered bytes stay readable, nothing blocks or dereferences a recycled buffer, Close is idempotent. '
-         'The model is compared with the real code on the COMPLETE table of the property (close mode x callbacks x input x output x slot reuse x method x argument x repetition) on every run.',
-    note='Exhaustive correspondence for the table; the theorems generalise over buffer contents. Teardown exactly-once under concurrency is C05; slot isolation is C10. Methods with deadlines set are outside the table.',
+         'The model is compared with the real code on the COMPLETE table of the property (close mode x callbacks x input x output x slot reuse x method x argument x repetition) on every run; '
+         'the property oracle judges the implementation\'s own replies: after a peer close (then user close or not) of a connection without callbacks the bytes buffered BEFORE the close must still be reported by Len() and readable, '
+         'in every other cell "still buffered" is what the connection\'s own Len() reports after the close.',
+    note='Exhaustive correspondence for the table; the theorems generalise over buffer contents. Teardown exactly-once under concurrency is C05; slot isolation is C10. Methods with deadlines set are outside the table. '
+         'With a callback set the teardown recycles the input buffer also after a peer close (the table\'s variant sets OnConnect only): those cells are judged against the post-close Len().',
     technique='Lean 4 theorems over a post-close model + exhaustive cell-by-cell correspondence with the real connection', design='§6 C12')
 
 READERS = ('next', 'peek', 'skip', 'rstr', 'rbin', 'rbyte', 'slice', 'read', 'until')
 WRITERS = ('malloc', 'flush', 'ack', 'append', 'wstr', 'wbin', 'wdir', 'wbyte', 'write')
 SHARDS = 8
+IN_BYTES = 10          # go/inpkg/closedh.go vcInBytes: what the harness lets the connection buffer (it waits until the connection's own Len() says so) before the close
+PEER_CLOSED = ('peer', 'peeruser')
 
 def run_shard(binary, wd, i):
     os.makedirs(wd, exist_ok=True)
@@ -30,7 +35,17 @@ def run_shard(binary, wd, i):
     return rd(ops), rd(impl), rd(model)
 
 def oracle(cells):
-    """property stated directly on the implementation's outcomes. cells: {opline: reply}"""
+    """property stated directly on the implementation's outcomes. cells: {opline: reply}
+
+    How many bytes are "still buffered" in a cell:
+    * the peer closed (modes peer, peeruser) and the connection has no callbacks, i.e. it is read through its Reader by the
+      user: what was buffered when the peer closed - "after the peer closed, the remaining buffered bytes can still be read
+      and only then reads fail".  Neither the hang-up nor the user's own Close afterwards may drop them, and Len() says so.
+    * every other cell: what the connection's own Len() reports after the close.  The text demands nothing about input
+      surviving a purely local close; and with a callback set the input belongs to the callbacks (it is offered to OnRequest
+      before the teardown, C06; the teardown then recycles the buffers - the table's variant sets OnConnect only, nobody
+      is left to read).
+    """
     avail = {}
     for o, r in cells.items():
         t = o.split()
@@ -56,8 +71,11 @@ def oracle(cells):
                 bad.append((o, r, 'Close must be idempotent')); break
             if meth == 'isactive' and out != 'ok n:0':
                 bad.append((o, r, 'IsActive true after close')); break
+            peer_kept = mode in PEER_CLOSED and t[2] == '0'
+            if peer_kept and meth == 'len' and k == 0 and out != 'ok n:%d' % (IN_BYTES if t[3] == '1' else 0):
+                bad.append((o, r, 'Len() after the peer closed must still report the %d bytes that were buffered' % (IN_BYTES if t[3] == '1' else 0))); break
             if meth in READERS and k == 0:
-                have = avail.get(tuple(t[1:7]))
+                have = (IN_BYTES if t[3] == '1' else 0) if peer_kept else avail.get(tuple(t[1:7]))
                 need = 1 if meth == 'rbyte' else (1 if meth == 'read' and arg > 0 else arg)
                 if meth == 'until' or have is None: continue
                 want_err = 'err eof' if mode == 'peer' else 'err closed'
@@ -83,15 +101,22 @@ def run(rep):
             if i == 'skipped': skipped.append(o); continue   # the harness gave up on this shard after repeated hangs
             cells[o] = i; model[o] = m
     diffs = [(o, cells[o], model[o]) for o in cells if cells[o] != model[o]]
-    # a setup failure can be a timing hiccup of the real poller: re-run those cells alone before judging
-    retry = [o for o, i, m in diffs if i.startswith('setup-failed') or 'hang' in i or 'noslot' in i]
-    if retry:
-        retry = retry[:40]     # enough to tell a timing hiccup from a real hang; re-running thousands of hanging cells is pointless
-        p = os.path.join(wd, 'retry.ops'); open(p, 'w').write('\n'.join(retry) + '\n')
-        subprocess.run([binary, '-replay', p, '-impl-out', os.path.join(wd, 'retry.impl')], check=True, timeout=900)
-        for o, i in zip(retry, open(os.path.join(wd, 'retry.impl')).read().split('\n')):
+    # a setup failure, a hang or a stalled bystander can be a timing hiccup of the real poller on a loaded machine: such cells
+    # (and every cell the oracle rejects) are re-run alone before judging - a genuine violation is deterministic and stays
+    def rerun(sel, tag):
+        sel = sel[:40]     # enough to tell a timing hiccup from a real failure; re-running thousands of hanging cells is pointless
+        p = os.path.join(wd, tag + '.ops'); open(p, 'w').write('\n'.join(sel) + '\n')
+        subprocess.run([binary, '-replay', p, '-impl-out', os.path.join(wd, tag + '.impl')], check=True, timeout=900)
+        for o, i in zip(sel, open(os.path.join(wd, tag + '.impl')).read().split('\n')):
             cells[o] = i
-        diffs = [(o, cells[o], model[o]) for o in cells if cells[o] != model[o]]
+    timing = lambda i: i.startswith('setup-failed') or 'hang' in i or 'noslot' in i or 'stalled' in i or i == 'stuck'
+    retry = [o for o, i, m in diffs if timing(i)]
+    if retry:
+        rerun(retry, 'retry')
+    first_bad = [b[0] for b in oracle(cells) if timing(b[1])]
+    if first_bad:
+        rerun(first_bad, 'retry2')
+    diffs = [(o, cells[o], model[o]) for o in cells if cells[o] != model[o]]
     bad = oracle(cells)
     hist = collections.Counter(r.split(' B=')[0].split('|')[0].strip().split(':')[0] for r in cells.values())
     rep.cov.update(evaluations=len(cells), distinct_nontrivial=len(set((o.split()[1], o.split()[7], r) for o, r in cells.items())), exhaustive=not skipped,
